@@ -18,9 +18,65 @@ const POLICY_SETS_PER_CASE: u64 = 25;
 
 pub fn plan(tier: &str) -> u64 {
     match tier {
-        // policy cases (25 sets each) + table cases
-        "quick" => 80 + 200,
-        _ => 4000 + 5000,
+        // policy cases (25 sets each) + table cases + tables read with a policy of another name
+        "quick" => 80 + 200 + n_foreign(tier),
+        _ => 4000 + 5000 + n_foreign(tier),
+    }
+}
+
+fn n_table_cases(tier: &str) -> u64 {
+    if tier == "quick" {
+        200
+    } else {
+        5000
+    }
+}
+
+fn n_foreign(tier: &str) -> u64 {
+    if tier == "quick" {
+        48
+    } else {
+        600
+    }
+}
+
+/// A second, exact filter policy: the filter is a marker byte followed by the 32-bit hashes of the
+/// keys. It keeps the trait's contract (members always match) and, like any policy, can make
+/// nothing of a filter that another policy wrote.
+#[derive(Debug)]
+struct HashListPolicy {
+    name: String,
+}
+
+impl HashListPolicy {
+    fn hash(key: &[u8]) -> u32 {
+        let mut h: u32 = 0x811c9dc5;
+        for b in key {
+            h ^= *b as u32;
+            h = h.wrapping_mul(0x01000193);
+        }
+        h
+    }
+}
+
+impl FilterPolicy for HashListPolicy {
+    fn get_name(&self) -> String {
+        self.name.clone()
+    }
+    fn create_filter(&self, keys: &[Vec<u8>]) -> Vec<u8> {
+        let mut out = vec![0xEEu8];
+        for k in keys {
+            out.extend_from_slice(&Self::hash(k).to_le_bytes());
+        }
+        out
+    }
+    fn key_may_match(&self, key: &[u8], serialized_filter: &[u8]) -> Result<bool, raindb::filter_policy::FilterPolicyError> {
+        if serialized_filter.first() != Some(&0xEE) || (serialized_filter.len() - 1) % 4 != 0 {
+            // not one of ours: whatever it lists, this key is not known to be in it
+            return Ok(false);
+        }
+        let h = Self::hash(key).to_le_bytes();
+        Ok(serialized_filter[1..].chunks(4).any(|c| c == h))
     }
 }
 
@@ -268,13 +324,94 @@ fn case_table(out: &mut CaseOut, seed: u64, idx: u64) {
         "entries": entries.len(), "file_size": size, "approx_data_bytes": data_bytes, "filter_ranges_2KiB": ranges}));
 }
 
+/// The name of a policy is stored with its filter block so that a table is never consulted
+/// through filters some other policy wrote: tables are built under one policy and read under a
+/// policy of another name (sorting before or after the writer's), and every stored entry must
+/// still be found.
+fn case_foreign_policy(out: &mut CaseOut, seed: u64, idx: u64) {
+    let mut rng = Rng::new(mix(&[seed, idx], "c14-foreign"));
+    let family = KeyFamily::ALL[(idx % 5) as usize];
+    let block = *rng.pick(&[64usize, 256, 1024, 4096]);
+    let nkeys = rng.range(20, 300) as usize;
+    let pool = gen::key_pool(&mut rng, family, nkeys);
+    let mut entries: Vec<Entry> = vec![];
+    for key in pool {
+        let seq = rng.range(1, 50_000);
+        if rng.chance(0.15) {
+            entries.push((key, seq, Operation::Delete, vec![]));
+        } else {
+            let len = rng.range(0, 200) as usize;
+            let v = gen::tagged_value(&mut rng, &format!("s{seq}:"), len);
+            entries.push((key, seq, Operation::Put, v));
+        }
+    }
+    let bloom = |bits: usize| -> Arc<dyn FilterPolicy> { Arc::new(BloomFilterPolicy::new(bits)) };
+    let list = |name: &str| -> Arc<dyn FilterPolicy> { Arc::new(HashListPolicy { name: name.to_string() }) };
+    // names sorting before and after "RainDB.BloomFilter"
+    let (writer, reader, pair): (Arc<dyn FilterPolicy>, Arc<dyn FilterPolicy>, &str) = match idx % 6 {
+        0 => (bloom(10), list("Audit.HashList"), "bloom-written/read-by-earlier-name"),
+        1 => (bloom(10), list("Zeta.HashList"), "bloom-written/read-by-later-name"),
+        2 => (list("Zeta.HashList"), bloom(10), "later-name-written/read-by-bloom"),
+        3 => (list("Audit.HashList"), bloom(10), "earlier-name-written/read-by-bloom"),
+        4 => (list("M.HashList.v2"), list("M.HashList.v1"), "v2-written/read-by-v1"),
+        _ => (list("M.HashList.v1"), list("M.HashList.v1"), "same-custom-policy"),
+    };
+    let fs = SimFs::from_image(&dbutil::skeleton_image("/c14"));
+    let cfg = Config { memtable: 4096, file: 1 << 20, block, reuse: true };
+    let mut write_options = dbutil::options(fs.as_provider(), "/c14", &cfg);
+    write_options.filter_policy = writer;
+    let mut read_options = write_options.clone();
+    read_options.filter_policy = reader;
+    let ctx = json!({"family": family.name(), "max_block_size": block, "policies": pair, "entries": entries.len()});
+    if let Err(e) = table::build(&write_options, 9, &entries) {
+        out.violate("C14/table/build-failed", json!({"ctx": ctx, "error": e}));
+        return;
+    }
+    let reader = match table::open(&read_options, 9) {
+        Ok(r) => r,
+        Err(e) => {
+            out.violate("C14/table/open-failed", json!({"ctx": ctx, "error": e}));
+            return;
+        }
+    };
+    out.add("tables_read_with_a_policy_of_another_name", 1);
+    let mut hidden = 0u64;
+    let mut first = None;
+    for e in &entries {
+        watch::tick();
+        out.add("table_member_lookups", 1);
+        let got = reader.get(&e.0, e.1, false);
+        let expected = match e.2 {
+            Operation::Put => Lookup::Value(e.3.clone()),
+            Operation::Delete => Lookup::Deleted,
+        };
+        if got != expected {
+            hidden += 1;
+            if first.is_none() {
+                first = Some(json!({"key": show(&e.0), "seq": e.1, "got": format!("{:?}", got).chars().take(80).collect::<String>()}));
+            }
+        }
+    }
+    if hidden > 0 {
+        out.violate(
+            format!("C14/table/stored-key-hidden-by-a-filter-of-another-policy/{pair}"),
+            json!({"ctx": ctx, "entries_hidden": hidden, "first": first}),
+        );
+    }
+    out.nontrivial(format!("foreign-policy/{pair}/{}", family.name()));
+    out.sample = Some(json!({"family": "foreign-policy", "ctx": ctx}));
+}
+
 pub fn run_case(tier: &str, seed: u64, idx: u64) -> CaseOut {
     let mut out = CaseOut::new();
     let np = n_policy_cases(tier);
+    let nt = n_table_cases(tier);
     if idx < np {
         case_policy(&mut out, seed, idx);
-    } else {
+    } else if idx < np + nt {
         case_table(&mut out, seed, idx - np);
+    } else {
+        case_foreign_policy(&mut out, seed, idx - np - nt);
     }
     out
 }
